@@ -280,10 +280,10 @@ pub fn run_case(bytes: &[u8], pws: &[Vec<u8>]) -> (Tally, u64) {
         let r = zip::ZipWriter::new_append(Cursor::new(copy));
         match r {
             Ok(w) => {
+                // (only OPENING for append is in this property's scope: the returned writer is not driven further - it
+                //  would write at offsets the untrusted bytes dictate, and what an in-memory sink does then is the sink's business)
                 t.add("new_append", "ok");
-                let mut w = std::mem::ManuallyDrop::new(w);
-                let f = w.finish();
-                t.add("new_append.finish", if f.is_ok() { "ok" } else { "err" });
+                let _w = std::mem::ManuallyDrop::new(w);
             }
             Err(e) => t.add("new_append", err_class(&e)),
         }
